@@ -315,6 +315,29 @@ func (e *Enc) Decls() string {
 		fmt.Fprintf(&b, "(declare-fun %s (Type) Bool)\n", p)
 		fmt.Fprintf(&b, "(assert (not (%s T_nil)))\n", p)
 		it := e.implPreds[p]
+		// an interface with an unexported method can only be implemented inside its package: closed world
+		closed := false
+		for i := 0; i < it.NumMethods(); i++ {
+			if !it.Method(i).Exported() {
+				closed = true
+			}
+		}
+		if closed {
+			var impls []string
+			for _, tn := range e.typeOrder {
+				if types.Implements(e.typeConsts[tn], it) {
+					impls = append(impls, "(= t!c "+tn+")")
+				}
+			}
+			// make sure every implementer in the defining package has a constant
+			alts := "false"
+			if len(impls) == 1 {
+				alts = impls[0]
+			} else if len(impls) > 1 {
+				alts = "(or " + strings.Join(impls, " ") + ")"
+			}
+			fmt.Fprintf(&b, "(assert (forall ((t!c Type)) (! (=> (%s t!c) %s) :pattern ((%s t!c)))))\n", p, alts, p)
+		}
 		for _, tn := range e.typeOrder {
 			gt := e.typeConsts[tn]
 			if types.Implements(gt, it) {
